@@ -13,6 +13,7 @@ import (
 // ---- C02: steps are gated --------------------------------------------------------------------------------------
 
 type c02state struct {
+	planEdited   bool // the user edited the Rollout spec: "the step's pods" of a step entered by a jump is then ambiguous
 	nextByUser   bool // the persisted nextStepIndex was last changed by the user (a pending jump request)
 	epoch        string
 	step         int
@@ -58,6 +59,7 @@ func (s *Set) c02(w *simapi.Write, v *simapi.View) {
 			}
 		case w.Key.Kind == "Rollout" && w.Before != nil && w.After != nil && specOf(w.Before) != specOf(w.After):
 			st.userRequest = true
+			st.planEdited = true
 		case w.Key.Kind == "Rollout" && (w.After == nil || simapi.Deleting(w.After)):
 			st.userRequest = true
 		case w.Key == s.S.WorkloadKey() && w.Before != nil && w.After != nil &&
@@ -205,7 +207,10 @@ func (s *Set) c02(w *simapi.Write, v *simapi.View) {
 	if stp == nil {
 		return
 	}
-	if !st.sawUpgrade[kb] && !st.userRequest {
+	if !st.sawUpgrade[kb] && !st.userRequest && st.planEdited {
+		s.count("c02_obs_jump_entered_step_after_plan_edit_not_judged", 1)
+	}
+	if !st.sawUpgrade[kb] && !st.userRequest && !st.planEdited {
 		// entered at StepTrafficRouting by a jump to a step with identical replicas: the pods of that size are checked here
 		R := s.replicasNow(v)
 		need := interp.PlannedFloor(simapi.Path(stp, "replicas"), R, s.S.Kind, s.S.Style)
@@ -494,9 +499,6 @@ func (s *Set) c05() {
 		}
 	}
 	s.addSet("c05_exit_kinds", fmt.Sprintf("%s/%s/%s/%s", s.S.Kind, s.S.Style, providerKind(s.S.Provider), exit))
-	for _, res := range s.residue(v, false) {
-		s.violate("C05", fmt.Sprintf("c05:residue:%s:%s/%s", firstWords(res, 1), s.S.Kind, s.S.Style), "after the rollout ended ("+exit+"): "+res, nil, s.Projection(v))
-	}
 	wl := s.workload(v)
 	if wl == nil {
 		return
@@ -525,6 +527,7 @@ func (s *Set) c05() {
 			return
 		}
 	}
+	// (the recorded classes above and below explain their own residue; the generic residue check comes after them)
 	// one specific history gets its own fingerprint: another revision was published while the cleanup of the completed
 	// release was running; the cleanup erases the new release's in-progress marker, the Rollout becomes Healthy and never
 	// takes the new revision up
@@ -534,6 +537,9 @@ func (s *Set) c05() {
 			s.violate("C05", "c05:revision-published-during-cleanup-never-released", fmt.Sprintf("%s/%s: a revision (%s) published while the cleanup of the completed release was running is never released: the Rollout is Healthy, the workload stays held (%s) on pods %v", s.S.Kind, s.S.Style, workloadImage(wl), holdStr(wl, s.S.Kind), tot), nil, s.Projection(v))
 			return
 		}
+	}
+	for _, res := range s.residue(v, false) {
+		s.violate("C05", fmt.Sprintf("c05:residue:%s:%s/%s", firstWords(res, 1), s.S.Kind, s.S.Style), "after the rollout ended ("+exit+"): "+res, nil, s.Projection(v))
 	}
 	// user-owned fields back to the user's configuration
 	bad := func(field string, got, want interface{}) {
